@@ -106,6 +106,7 @@ func cmdCheck(args []string) int {
 	tierName := fs.String("tier", os.Getenv("VERIF_TIER"), "quick|thorough")
 	only := fs.String("only", "", "restrict to harnesses whose name contains this")
 	workers := fs.Int("workers", 16, "")
+	descOnly := fs.String("desc", "", "restrict to harness entries whose description contains this")
 	if len(args) < 1 {
 		fmt.Fprintln(os.Stderr, "usage: verif check <property> [--tier quick|thorough]")
 		return 2
@@ -174,6 +175,9 @@ func cmdCheck(args []string) int {
 			continue
 		}
 		if *only != "" && !strings.Contains(h.Func, *only) {
+			continue
+		}
+		if *descOnly != "" && !strings.Contains(h.Desc, *descOnly) {
 			continue
 		}
 		sx.Params = tier.Params
